@@ -68,7 +68,12 @@ def judge(case):
             c2 = case.with_()
             c2.extra = dict(ex, cpu=CONFIRM_CPU)
             return judge(c2)
-        fail('cpu-limit', 'hang', 'no result after %d s of CPU' % cpu, nomin=True)
+        fail('cpu-limit', 'hang', 'no result after %d s of CPU' % cpu)
+        rel, d = fails[-1]
+        if _LEDGER and _LEDGER[0].match(family.make_sig(case, rel, d)) is not None:
+            d['no_minimise'] = True                                  # a known hang: no need to spend minutes on shrinking it
+        else:
+            d['min_case_extra'] = {'cpu': 3, 'escalate': False}      # unknown: minimise config and source under a 3 s limit
     elif b'Sanitizer' in err or b'runtime error:' in err or r.status in (98, 99):
         fail('sanitizer-report', frame(err) or 'unknown-frame', 'exit %s signal %s' % (r.status, r.signal))
     elif b'terminate called' in err or b'what():' in err:
@@ -96,6 +101,7 @@ def judge(case):
 
 replay = family.replay_case(judge)
 _EX = {}
+_LEDGER = [core.Ledger('C06')]
 
 
 def draw_cfg(rng):
